@@ -12,7 +12,7 @@ from ..rulegen import RuleGen
 from ..specgen import normalise_cond, normalise_path, nested_leaves, path_leaves
 from ..describe import Inert0
 from ..ruleterms import Tags, obs_rule_test
-from ..terms import valida
+from ..terms import valida, Bin
 from .c09 import IMPORTS
 from .c10 import limit_parts
 from .c11 import fix_leaf, meaningful, jsonable
@@ -61,6 +61,12 @@ def run(tier, seed, model_ok, spec_ok, replay=None):
         rts = [rt for rt in (rg.rule(doc, cast_p=0.5) for _ in range(g.r.choice([1, 1, 2, 3]))) if in_fragment(g, rt)]
         if not rts:
             continue
+        if g.r.random() < 0.15:
+            # a schema may hold the same rule twice (or twice up to the order of the operands of its condition)
+            dup = copy.deepcopy(g.r.choice(rts))
+            if isinstance(dup.cond, Bin) and g.r.random() < 0.5:
+                dup.cond.a, dup.cond.b = dup.cond.b, dup.cond.a
+            rts.insert(g.r.randint(0, len(rts)), dup)
         if g.r.random() < 0.12:
             # a rule path with a datum / multiplicity modifier or source data cannot be written as part specs: refusal expected
             pth = rts[0].path
